@@ -480,6 +480,16 @@ func cloneAtAllCallers(w *World, cf *ctxFacts, fn *ssa.Function) bool {
 }
 
 func freshAtAllCallers(w *World, cf *ctxFacts, fn *ssa.Function) bool {
+	return freshAtAllCallersRec(w, cf, fn, map[*ssa.Function]bool{})
+}
+
+// a caller that hands on the context it received itself is judged by its own callers
+func freshAtAllCallersRec(w *World, cf *ctxFacts, fn *ssa.Function, asking map[*ssa.Function]bool) bool {
+	if asking[fn] || len(asking) > 4 {
+		return false
+	}
+	asking[fn] = true
+	defer delete(asking, fn)
 	n := 0
 	for _, caller := range w.Funcs("parser") {
 		for _, b := range caller.Blocks {
@@ -492,7 +502,14 @@ func freshAtAllCallers(w *World, cf *ctxFacts, fn *ssa.Function) bool {
 				for i, p := range fn.Params {
 					if cf.isCtx(p.Type()) && i < len(c.Call.Args) {
 						o := cf.ctxOrigin(c.Call.Args[i], map[ssa.Value]bool{})
-						if !o["fresh"] || o["param"] || o["other"] {
+						if o["other"] || o["captured"] || o["clone"] {
+							return false
+						}
+						if o["param"] {
+							if !freshAtAllCallersRec(w, cf, caller, asking) {
+								return false
+							}
+						} else if !o["fresh"] {
 							return false
 						}
 					}
